@@ -2,3 +2,5 @@
 #![allow(dead_code)]
 #[cfg(kani)]
 mod c20;
+#[cfg(kani)]
+mod c15;
